@@ -9,7 +9,7 @@ EXPLANATION = ("Narrow claim, necessary conditions only: R18.1 every OpenOptions
                "path of the file currently written to (updated by every rotation); R18.2 the writer is replaced by assignment only after a successful "
                "open (the replaced writer is dropped, hence flushed into the old inode), under the state lock by construction; R18.3 reset validates "
                "the write mode and builds the new state before replacing the old one; R18.4 reopen_output / trigger_rotation fan out to the file "
-               "writer and every additional writer, keeping the first error.")
+               "writer and every additional writer, keeping the first error. R18.4 also: the additional writers are iterated for every kind of primary writer.")
 ASSUMPTIONS = ["inode semantics of external rename/remove (OS)", "BufWriter flushes on drop"]
 NOT_DECIDED = ["inode semantics of external rename/remove", "content of old vs new family", "async mode (outside the property)"]
 FLOORS = {'R18.1': 1, 'R18.3': 1, 'R18.4': 2}
